@@ -181,7 +181,13 @@ func writeUnbrotli(w io.Writer, p []byte, maxBodySize int) (int, error) {
 		return 0, err
 	}
 	n, err := copyZeroAllocWithLimit(w, zr, maxBodySize)
-	releaseBrotliReader(zr)
+	if err == nil {
+		// Only a reader that reached the end of its stream goes back to the
+		// pool: Reset does not drop the input a reader that stopped early
+		// (the limit, a corrupt stream) has buffered, and the next stream
+		// it is given would be decoded behind those leftovers.
+		releaseBrotliReader(zr)
+	}
 	nn := int(n)
 	if int64(nn) != n {
 		return 0, fmt.Errorf("too much data unbrotlied: %d", n)
